@@ -32,9 +32,26 @@ Composition modes of `generate_constraint` (Model/EmittedJoin.lean):
                                                     join_and_identity, join_or_some_holds, join_or_total (or_ ALWAYS succeeds on statements that do
                                                     not read their own target, draws nothing, one relation holds), join_or_identity;
                                                     compose_identity (every coupler list is the identity on feasible input)
+
+Argument SHAPES of `generate_constraint` (Model/EmittedShape.lean: one solver / a list / any nesting of lists and tuples, as
+`generate_solvers` returns for a tuple of texts; `ctype` = None / one coupler / a (nested) list):
+  every solver of the nesting is compiled in           gc_shape_compiles_every_solver (None, one coupler, a list with an entry per solver)
+  the nesting is irrelevant                             gc_shape_default_eq_chain (= `chain` of the flattening)
+  independent systems, any nesting, any couplers        gc_shape_independent, gc_shape_frame, gc_shape_identity
+  a list as long as the OUTER sequence of nested        gc_shape_short_ctype_drops (closed witness: `zip` silently leaves the
+  solvers                                               trailing solvers out - the code as it is; recorded finding)
+  join= over GROUPS (every top-level item one member)   group_fixed_all_hold (distinct targets: a group that leaves y unchanged
+                                                        satisfies all its relations there), join_groups_or_member_holds,
+                                                        join_groups_and_all_hold (idempotent members),
+                                                        group_member_idem (a group of independent, division-free lines IS idempotent:
+                                                        chain_independent_margin, compose_independent_margin, compose_idempotent),
+                                                        join_groups_and_indep_all_hold (groups may feed one another),
+                                                        join_groups_and_feeding_false_success (closed witness: a group whose lines
+                                                        feed one another makes `constraints.and_` report a false success)
 -/
 import MysticVerif.Proofs.Emitted
 import MysticVerif.Proofs.EmittedJoin
+import MysticVerif.Proofs.EmittedShape
 import MysticVerif.Props.C17
 import MysticVerif.Proofs.AndSuccess
 
@@ -1000,7 +1017,419 @@ theorem join_and_independent (h : Indep env isPos d rels codes x) (hpos : ∀ c,
 
 end
 
+/-! ## argument shapes of `generate_constraint`: nested solver collections, forms of `ctype` (Model/EmittedShape.lean) -/
+
+/-- **Every solver is compiled in, whatever the nesting.** For `ctype=None`, one coupler, or a (nested) list whose
+flattening has an entry for every solver, the statements `generate_constraint` composes are EXACTLY the flattening of the
+`conditions` argument - a flat tuple, the tuple of tuples `generate_solvers` returns for a tuple of texts, a one-element
+wrapper, any hand-made nesting: no relation is left out and none is added. (The coupler list is sized by the FLATTENED
+length, symbolic.py l.1503-1510; sizing it by the outer length loses the tail in the `zip` of l.1517.) -/
+theorem gc_shape_compiles_every_solver {α : Type} (conds : Nest α) (ct : CArg)
+    (hcov : ct.covers (Nest.flatL conds.top).length) :
+    (gcItems conds ct).map (·.2) = Nest.flatL conds.top := gcItems_snd conds ct hcov
+
+private theorem orderFrom_all_inner {α : Type} : ∀ (L L0 : List α),
+    orderFrom L0 ((List.replicate L.length CType.inner).zip L) = L0 ++ L
+  | [], L0 => by simp [orderFrom]
+  | a :: L, L0 => by
+    rw [List.length_cons, List.replicate_succ, List.zip_cons_cons, orderFrom_cons]
+    simp only
+    rw [orderFrom_all_inner L (L0 ++ [a])]; simp
+
+/-- **The nesting is irrelevant.** With the default couplers, `generate_constraint` of ANY nesting of the solvers is `chain`
+(the default inner composition) of their flattening. -/
+theorem gc_shape_default_eq_chain (env : Env C K) (conds : Nest (Assign C)) (x : List K) :
+    gcShaped env conds .none x = chain env (Nest.flatL conds.top) x := by
+  unfold gcShaped
+  rw [(compose_eq_chain_order env _ x).1, order_eq]
+  unfold gcItems ctypeList
+  rw [orderFrom_all_inner]; rfl
+
+/-- **Independent systems, any nesting, any couplers (property clause 4 for every shape of the arguments).** Accepted
+statements for relations with pairwise distinct left-hand variables, none of which occurs in a right-hand side, handed to
+`generate_constraint` in ANY nesting with `ctype` = None, one coupler, or a (nested) list covering the solvers: the output
+satisfies ALL relations at once. -/
+theorem gc_shape_independent [DecidableEq C] (env : Env C K) (isPos : C → Bool) (d : C)
+    (hpos : ∀ c, isPos c = true → 0 < env.ι c) (htol : 0 ≤ env.tol) (hrel : 0 ≤ env.rel)
+    (items : Nest (Rel C × Assign C)) (ct : CArg) (x : List K)
+    (hcov : ct.covers (Nest.flatL items.top).length)
+    (hrec : ∀ t ∈ Nest.flatL items.top, recognise isPos d t.1 t.2 = true)
+    (hlen : ∀ t ∈ Nest.flatL items.top, t.1.i < x.length)
+    (hnodup : ((Nest.flatL items.top).map (·.1.i)).Nodup)
+    (hfree : ∀ t ∈ Nest.flatL items.top, ∀ t' ∈ Nest.flatL items.top, t'.1.rhs.mentions t.1.i = false)
+    (hB : ∀ t ∈ Nest.flatL items.top, ∀ t' ∈ Nest.flatL items.top, t.2.factor.mentions t'.1.i = false)
+    (hstrict : ∀ t ∈ Nest.flatL items.top, t.1.cmp.strict = true → 0 < env.tol) :
+    ∀ t ∈ Nest.flatL items.top, t.1.holds env (gcShaped env (Nest.map (·.2) items) ct x) := by
+  have hsnd := gcItems_snd items ct hcov
+  have hmem : ∀ w ∈ gcItems items ct, w.2 ∈ Nest.flatL items.top := gcItems_snd_mem items ct
+  unfold gcShaped
+  rw [gcItems_map]
+  have key := compose_independent env isPos d hpos htol hrel (gcItems items ct) x
+    (fun w hw => hrec _ (hmem w hw)) (fun w hw => hlen _ (hmem w hw))
+    (by have : (gcItems items ct).map (·.2.1.i) = ((gcItems items ct).map (·.2)).map (·.1.i) := by
+          rw [List.map_map]; rfl
+        rw [this, hsnd]; exact hnodup)
+    (fun w hw w' hw' => hfree _ (hmem w hw) _ (hmem w' hw'))
+    (fun w hw w' hw' => hB _ (hmem w hw) _ (hmem w' hw'))
+    (fun w hw => hstrict _ (hmem w hw))
+  intro t ht
+  rw [← hsnd] at ht
+  obtain ⟨w, hw, rfl⟩ := List.mem_map.mp ht
+  exact key w hw
+
+/-- **Frame, any nesting, any `ctype`.** Coordinates that are no statement's target are untouched. -/
+theorem gc_shape_frame (env : Env C K) (conds : Nest (Assign C)) (ct : CArg) (x : List K) :
+    (gcShaped env conds ct x).length = x.length ∧
+    ∀ j, (∀ c ∈ Nest.flatL conds.top, c.i ≠ j) → (gcShaped env conds ct x).getD j 0 = x.getD j 0 := by
+  unfold gcShaped
+  refine ⟨(compose_frame env _ x).1, fun j hj => (compose_frame env _ x).2 j ?_⟩
+  intro w hw
+  exact hj w.2 (gcItems_snd_mem conds ct w hw)
+
+/-- **Identity, any nesting, any `ctype`.** If the input satisfies every relation with its margin, the composed function
+returns the input unchanged. -/
+theorem gc_shape_identity [DecidableEq C] (env : Env C K) (isPos : C → Bool) (d : C)
+    (items : Nest (Rel C × Assign C)) (ct : CArg) (x : List K)
+    (h : ∀ t ∈ Nest.flatL items.top, recognise isPos d t.1 t.2 = true ∧ t.1.margin env t.2.factor x) :
+    gcShaped env (Nest.map (·.2) items) ct x = x := by
+  unfold gcShaped
+  rw [gcItems_map]
+  exact compose_identity env isPos d (gcItems items ct) x (fun w hw => h _ (gcItems_snd_mem items ct w hw))
+
+/-- **A `ctype` list as long as the OUTER sequence of nested solvers loses relations (closed witness; the code as it is).**
+The solvers of `x0 = 1 ; x1 = 2` and of `x2 = 3`, nested as `generate_solvers` returns them for the two texts, with
+`ctype=[inner, outer]` - "a list of the same length as conditions" read literally: both arguments are flattened, `zip` pairs
+two couplers with the first two of three solvers, and `x2 = 3` is not enforced at `[0, 0, 0]` (no error is raised). -/
+theorem gc_shape_short_ctype_drops :
+    ∃ (env : Env Nat ℚ) (r2 : Rel Nat) (c0 c1 c2 : Assign Nat),
+      recognise (fun c => decide (0 < c)) 1 r2 c2 = true ∧
+      (gcItems (.node [.node [.leaf c0, .leaf c1], .node [.leaf c2]]) (.many [.leaf .inner, .leaf .outer])).map (·.2)
+        = [c0, c1] ∧
+      gcShaped env (.node [.node [.leaf c0, .leaf c1], .node [.leaf c2]]) (.many [.leaf .inner, .leaf .outer]) [0, 0, 0]
+        = [1, 2, 0] ∧
+      ¬ r2.holds env [1, 2, 0] := by
+  refine ⟨{ ι := fun n => (n : ℚ), tol := 0, rel := 0 }, ⟨2, .eq, .num 3⟩, ⟨0, .num 1⟩, ⟨1, .num 2⟩, ⟨2, .num 3⟩,
+    by decide, ?_, ?_, ?_⟩
+  · simp [gcItems, ctypeList, Nest.top, Nest.flatL, Nest.flat]
+  · simp [gcShaped, gcItems, ctypeList, Nest.top, Nest.flatL, Nest.flat, compose]
+    simp [Emitted.step, Assign.exec, Expr.eval]
+  · simp [Rel.holds, Cmp.holds, Expr.eval]
+
+/-! ### `join=` over groups: every top-level item of `conditions` is one member -/
+
+/-- **A group that leaves a vector unchanged satisfies all its relations there.** For accepted statements with pairwise
+distinct left-hand variables composed through ANY couplers (one member of a joined constraint): if the composition returns
+`y` itself, every relation of the group holds at `y` with its margin - whether or not the lines feed one another. -/
+theorem group_fixed_all_hold [DecidableEq C] (env : Env C K) (isPos : C → Bool) (d : C)
+    (hpos : ∀ c, isPos c = true → 0 < env.ι c) (hrel : 0 ≤ env.rel)
+    (g : List (CType × Rel C × Assign C)) (y : List K)
+    (hrec : ∀ t ∈ g, recognise isPos d t.2.1 t.2.2 = true)
+    (hnodup : (g.map (·.2.1.i)).Nodup)
+    (hlen : ∀ t ∈ g, t.2.1.i < y.length)
+    (hne : ∀ t ∈ g, t.2.1.cmp = .ne → 0 < env.tol)
+    (hfix : compose env (g.map fun t => (t.1, t.2.2)) y = y) :
+    ∀ t ∈ g, t.2.1.margin env t.2.2.factor y := by
+  have hnd : ((g.map fun t => (t.1, t.2.2)).map (·.2.i)).Nodup := by
+    rw [List.map_map]
+    have : g.map ((fun w : CType × Assign C => w.2.i) ∘ fun t => (t.1, t.2.2)) = g.map (·.2.1.i) :=
+      List.map_congr_left (fun t ht => recognise_i (hrec t ht))
+    rw [this]; exact hnodup
+  have hall := compose_fixed_all_fixed env _ y hnd hfix
+  intro t ht
+  have hex : t.2.2.exec env y = y := hall (t.1, t.2.2) (List.mem_map.mpr ⟨t, ht, rfl⟩)
+  exact fixed_point_margin env isPos d hpos hrel t.2.1 t.2.2 y (hrec t ht) (hlen t ht) (hne t ht) hex
+
+/-- **`join=or_` over groups: a success satisfies ALL relations of at least one member.** Members are the top-level items
+of `conditions` (single solvers or whole groups, each composed through its own couplers); the lines of a group have
+pairwise distinct left-hand variables. No independence hypothesis. -/
+theorem join_groups_or_member_holds [DecidableEq C] (env : Env C K) (isPos : C → Bool) (d : C)
+    (hpos : ∀ c, isPos c = true → 0 < env.ι c) (htol : 0 ≤ env.tol) (hrel : 0 ≤ env.rel)
+    (groups : List (List (CType × Rel C × Assign C))) (x : List K) (draws : List Nat)
+    (hrec : ∀ g ∈ groups, ∀ t ∈ g, recognise isPos d t.2.1 t.2.2 = true)
+    (hnodup : ∀ g ∈ groups, (g.map (·.2.1.i)).Nodup)
+    (hstrict : ∀ g ∈ groups, ∀ t ∈ g, t.2.1.cmp.strict = true → 0 < env.tol)
+    (y : List K) (t links : Nat) (st : Comb.Stats)
+    (hr : joinOrG env (groups.map fun g => g.map fun t => (t.1, t.2.2)) x draws = (.success y t links, st)) :
+    ∃ g ∈ groups, ∀ t ∈ g, t.2.1.holds env y := by
+  unfold joinOrG at hr
+  obtain ⟨i, hlt, hm⟩ := C17.or_success_fixed _ id _ _ x draws y t links st (fun h => by omega) hr
+  rw [List.length_map] at hlt
+  unfold gmember at hm
+  rw [List.getElem?_map, List.getElem?_eq_getElem hlt] at hm
+  simp only [Option.map_some] at hm
+  have hg : groups[i] ∈ groups := List.getElem_mem hlt
+  have hfix : compose env (groups[i].map fun t => (t.1, t.2.2)) y = y := (compose_opt_eq env _ y y hm).symm
+  have hlen : ∀ t ∈ groups[i], t.2.1.i < y.length := by
+    intro t ht
+    have := composeOpt_target_lt env _ y y hm (t.1, t.2.2) (List.mem_map.mpr ⟨t, ht, rfl⟩)
+    rw [← recognise_i (hrec _ hg t ht)]; exact this
+  have hne : ∀ t ∈ groups[i], t.2.1.cmp = .ne → 0 < env.tol := fun t ht h => hstrict _ hg t ht (by rw [h]; rfl)
+  refine ⟨groups[i], hg, fun t ht => ?_⟩
+  refine margin_holds env htol hrel t.2.1 t.2.2.factor y ?_ (hstrict _ hg t ht)
+    (group_fixed_all_hold env isPos d hpos hrel groups[i] y (hrec _ hg) (hnodup _ hg) hlen hne hfix t ht)
+  intro hc
+  exact isBool_eval_nonneg env _ _ ((recognise_spec (hrec _ hg t ht)).2.1 hc)
+
+/-- **`join=and_` over groups: a success is a solution of the whole text**, for idempotent members (a single solver that
+does not read its own target is: `member_idem`; a group is when running it twice equals running it once, e.g. when its
+lines do not feed one another) and an intact history window. For a member that is NOT idempotent - a group whose lines
+feed one another - `constraints.and_` may report success at a vector that the member would still move. -/
+theorem join_groups_and_all_hold [DecidableEq C] (env : Env C K) (isPos : C → Bool) (d : C)
+    (hpos : ∀ c, isPos c = true → 0 < env.ι c) (htol : 0 ≤ env.tol) (hrel : 0 ≤ env.rel)
+    (groups : List (List (CType × Rel C × Assign C))) (x : List K) (draws : List (List K))
+    (hrec : ∀ g ∈ groups, ∀ t ∈ g, recognise isPos d t.2.1 t.2.2 = true)
+    (hnodup : ∀ g ∈ groups, (g.map (·.2.1.i)).Nodup)
+    (hstrict : ∀ g ∈ groups, ∀ t ∈ g, t.2.1.cmp.strict = true → 0 < env.tol)
+    (hidem : ∀ i, i < groups.length → C17.Idem (gmember env (groups.map fun g => g.map fun t => (t.1, t.2.2)) i))
+    (y : List K) (t links : Nat) (st : Comb.Stats)
+    (hr : joinAndG env (groups.map fun g => g.map fun t => (t.1, t.2.2)) x draws = (.success y t links, st))
+    (hlinks : groups.length ≤ links) :
+    ∀ g ∈ groups, ∀ t ∈ g, t.2.1.holds env y := by
+  unfold joinAndG at hr
+  have hfixall := C17.and_success_fixed _ (fun d _ => d) _ _ x draws
+    y t links st (fun i hi => hidem i (by simpa using hi)) hr (by simpa using hlinks)
+  intro g hg
+  obtain ⟨i, hlt, rfl⟩ := List.getElem_of_mem hg
+  have hm := hfixall i (by simpa using hlt)
+  unfold gmember at hm
+  rw [List.getElem?_map, List.getElem?_eq_getElem hlt] at hm
+  simp only [Option.map_some] at hm
+  have hfix : compose env (groups[i].map fun t => (t.1, t.2.2)) y = y := (compose_opt_eq env _ y y hm).symm
+  have hlen : ∀ t ∈ groups[i], t.2.1.i < y.length := by
+    intro t ht
+    have := composeOpt_target_lt env _ y y hm (t.1, t.2.2) (List.mem_map.mpr ⟨t, ht, rfl⟩)
+    rw [← recognise_i (hrec _ hg t ht)]; exact this
+  have hne : ∀ t ∈ groups[i], t.2.1.cmp = .ne → 0 < env.tol := fun t ht h => hstrict _ hg t ht (by rw [h]; rfl)
+  intro t ht
+  refine margin_holds env htol hrel t.2.1 t.2.2.factor y ?_ (hstrict _ hg t ht)
+    (group_fixed_all_hold env isPos d hpos hrel groups[i] y (hrec _ hg) (hnodup _ hg) hlen hne hfix t ht)
+  intro hc
+  exact isBool_eval_nonneg env _ _ ((recognise_spec (hrec _ hg t ht)).2.1 hc)
+
+/-! ### groups whose lines do not feed one another are idempotent members -/
+
+/-- **Independent systems, with margins.** The output of the default composition satisfies every relation with the margin\nthe code works with (what makes a second run the identity). -/
+theorem chain_independent_margin [DecidableEq C] (env : Env C K) (isPos : C → Bool) (d : C)
+    (hpos : ∀ c, isPos c = true → 0 < env.ι c) (htol : 0 ≤ env.tol) (hrel : 0 ≤ env.rel)
+    (rels : List (Rel C)) (codes : List (Assign C)) (x : List K)
+    (hrec : List.Forall₂ (fun r c => recognise isPos d r c = true) rels codes)
+    (hlen : ∀ r ∈ rels, r.i < x.length)
+    (hnodup : (rels.map (·.i)).Nodup)
+    (hfree : ∀ r ∈ rels, ∀ r' ∈ rels, r'.rhs.mentions r.i = false)
+    (hB : ∀ c ∈ codes, ∀ r ∈ rels, c.factor.mentions r.i = false)
+    (hne : ∀ r ∈ rels, r.cmp = .ne → 0 < env.tol) :
+    List.Forall₂ (fun r c => recognise isPos d r c = true ∧ r.margin env c.factor (chain env codes x)) rels codes := by
+  induction hrec with
+  | nil => exact List.Forall₂.nil
+  | @cons r c rs cs hrc hrest ih =>
+    have ih' := ih (fun r hr => hlen r (by simp [hr]))
+      (by simp only [List.map_cons, List.nodup_cons] at hnodup; exact hnodup.2)
+      (fun r hr r' hr' => hfree r (by simp [hr]) r' (by simp [hr']))
+      (fun c hc r hr => hB c (by simp [hc]) r (by simp [hr]))
+      (fun r hr => hne r (by simp [hr]))
+    have hci : c.i = r.i := recognise_i hrc
+    rw [chain_cons]
+    refine List.Forall₂.cons ⟨hrc, ?_⟩ ?_
+    · exact solver_enforces_margin env isPos d hpos htol hrel r c _ hrc
+        (by rw [chain_length]; exact hlen r (by simp))
+        (hfree r (by simp) r (by simp)) (hB c (by simp) r (by simp)) (hne r (by simp))
+    · -- the other relations keep their margins: `c` writes a variable none of them reads
+      have key : ∀ (rs' : List (Rel C)) (cs' : List (Assign C)),
+          List.Forall₂ (fun r c => recognise isPos d r c = true ∧ r.margin env c.factor (chain env cs x)) rs' cs' →
+          (∀ r' ∈ rs', r'.i ≠ r.i ∧ r'.rhs.mentions r.i = false) → (∀ c' ∈ cs', c'.factor.mentions r.i = false) →
+          List.Forall₂ (fun r' c' => recognise isPos d r' c' = true ∧ r'.margin env c'.factor (c.exec env (chain env cs x))) rs' cs' := by
+        intro rs' cs' h
+        induction h with
+        | nil => intro _ _; exact List.Forall₂.nil
+        | @cons r' c' rs'' cs'' h1 _ ih2 =>
+          intro ha hb
+          refine List.Forall₂.cons ⟨h1.1, ?_⟩ (ih2 (fun q hq => ha q (by simp [hq])) (fun q hq => hb q (by simp [hq])))
+          exact margin_exec_other env r' c'.factor c _ (by rw [hci]; exact (ha r' (by simp)).1)
+            (by rw [hci]; exact (ha r' (by simp)).2) (by rw [hci]; exact hb c' (by simp)) h1.2
+      refine key rs cs ih' ?_ ?_
+      · intro r' hr'
+        simp only [List.map_cons, List.nodup_cons, List.mem_map, not_exists, not_and] at hnodup
+        exact ⟨fun h => hnodup.1 r' hr' h, hfree r (by simp) r' (by simp [hr'])⟩
+      · intro c' hc'; exact hB c' (by simp [hc']) r (by simp)
+
+
+private theorem pairs_of_forall2 {α β : Type} (P : α → β → Prop) :
+    ∀ l : List (α × β), List.Forall₂ P (l.map (·.1)) (l.map (·.2)) → ∀ p ∈ l, P p.1 p.2
+  | [], _ => by intro p hp; simp at hp
+  | q :: l, h => by
+    simp only [List.map_cons, List.forall₂_cons] at h
+    intro p hp
+    rcases List.mem_cons.mp hp with rfl | hm
+    · exact h.1
+    · exact pairs_of_forall2 P l h.2 p hm
+
+/-- **Independent systems, every order, with margins.** -/
+theorem compose_independent_margin [DecidableEq C] (env : Env C K) (isPos : C → Bool) (d : C)
+    (hpos : ∀ c, isPos c = true → 0 < env.ι c) (htol : 0 ≤ env.tol) (hrel : 0 ≤ env.rel)
+    (items : List (CType × Rel C × Assign C)) (x : List K)
+    (hrec : ∀ t ∈ items, recognise isPos d t.2.1 t.2.2 = true)
+    (hlen : ∀ t ∈ items, t.2.1.i < x.length)
+    (hnodup : (items.map (·.2.1.i)).Nodup)
+    (hfree : ∀ t ∈ items, ∀ t' ∈ items, t'.2.1.rhs.mentions t.2.1.i = false)
+    (hB : ∀ t ∈ items, ∀ t' ∈ items, t.2.2.factor.mentions t'.2.1.i = false)
+    (hne : ∀ t ∈ items, t.2.1.cmp = .ne → 0 < env.tol) :
+    ∀ t ∈ items, t.2.1.margin env t.2.2.factor (compose env (items.map fun t => (t.1, t.2.2)) x) := by
+  have hperm : (order items).Perm (items.map (·.2)) := order_perm items
+  have hmem : ∀ p, p ∈ order items ↔ ∃ t ∈ items, t.2 = p := by
+    intro p; rw [hperm.mem_iff]; simp
+  have hcodes : order (items.map fun t => (t.1, t.2.2)) = (order items).map (·.2) :=
+    order_map (fun q : Rel C × Assign C => q.2) items
+  rw [(compose_eq_chain_order env _ x).1, hcodes]
+  have key := chain_independent_margin env isPos d hpos htol hrel ((order items).map (·.1)) ((order items).map (·.2)) x
+    (by
+      have : ∀ l : List (Rel C × Assign C), (∀ p ∈ l, recognise isPos d p.1 p.2 = true) →
+          List.Forall₂ (fun r c => recognise isPos d r c = true) (l.map (·.1)) (l.map (·.2)) := by
+        intro l; induction l with
+        | nil => intro _; exact List.Forall₂.nil
+        | cons q l ih => intro h; exact List.Forall₂.cons (h q (by simp)) (ih (fun p hp => h p (by simp [hp])))
+      exact this _ (fun p hp => by obtain ⟨t, ht, rfl⟩ := (hmem p).mp hp; exact hrec t ht))
+    (by intro r hr; simp only [List.mem_map] at hr; obtain ⟨p, hp, rfl⟩ := hr
+        obtain ⟨t, ht, rfl⟩ := (hmem p).mp hp; exact hlen t ht)
+    (by have h1 : ((order items).map (·.1)).Perm ((items.map (·.2)).map (·.1)) := hperm.map _
+        have h2 : (((order items).map (·.1)).map (·.i)).Perm (items.map (·.2.1.i)) := by
+          have := h1.map (fun r : Rel C => r.i)
+          simpa [List.map_map, Function.comp_def] using this
+        exact h2.nodup_iff.mpr hnodup)
+    (by intro r hr r' hr'; simp only [List.mem_map] at hr hr'
+        obtain ⟨p, hp, rfl⟩ := hr; obtain ⟨p', hp', rfl⟩ := hr'
+        obtain ⟨t, ht, rfl⟩ := (hmem p).mp hp; obtain ⟨t', ht', rfl⟩ := (hmem p').mp hp'
+        exact hfree t ht t' ht')
+    (by intro c hc r hr; simp only [List.mem_map] at hc hr
+        obtain ⟨p, hp, rfl⟩ := hc; obtain ⟨p', hp', rfl⟩ := hr
+        obtain ⟨t, ht, rfl⟩ := (hmem p).mp hp; obtain ⟨t', ht', rfl⟩ := (hmem p').mp hp'
+        exact hB t ht t' ht')
+    (by intro r hr; simp only [List.mem_map] at hr; obtain ⟨p, hp, rfl⟩ := hr
+        obtain ⟨t, ht, rfl⟩ := (hmem p).mp hp; exact hne t ht)
+  intro t ht
+  exact (pairs_of_forall2 _ (order items) key t.2 ((hmem t.2).mpr ⟨t, ht, rfl⟩)).2
+
+/-- **A group of independent lines is idempotent**: running it on its own output changes nothing. -/
+theorem compose_idempotent [DecidableEq C] (env : Env C K) (isPos : C → Bool) (d : C)
+    (hpos : ∀ c, isPos c = true → 0 < env.ι c) (htol : 0 ≤ env.tol) (hrel : 0 ≤ env.rel)
+    (items : List (CType × Rel C × Assign C)) (x : List K)
+    (hrec : ∀ t ∈ items, recognise isPos d t.2.1 t.2.2 = true)
+    (hlen : ∀ t ∈ items, t.2.1.i < x.length)
+    (hnodup : (items.map (·.2.1.i)).Nodup)
+    (hfree : ∀ t ∈ items, ∀ t' ∈ items, t'.2.1.rhs.mentions t.2.1.i = false)
+    (hB : ∀ t ∈ items, ∀ t' ∈ items, t.2.2.factor.mentions t'.2.1.i = false)
+    (hne : ∀ t ∈ items, t.2.1.cmp = .ne → 0 < env.tol) :
+    compose env (items.map fun t => (t.1, t.2.2)) (compose env (items.map fun t => (t.1, t.2.2)) x)
+      = compose env (items.map fun t => (t.1, t.2.2)) x :=
+  compose_identity env isPos d items _ (fun t ht => ⟨hrec t ht,
+    compose_independent_margin env isPos d hpos htol hrel items x hrec hlen hnodup hfree hB hne t ht⟩)
+
+
+/-- **Group members are idempotent when their lines do not feed one another.** A member of a joined constraint whose
+accepted statements have distinct left-hand variables, none of which occurs in a right-hand side of the SAME group (other
+groups may read them), and whose statements cannot raise ZeroDivisionError (definedness depends on the vector's length
+only): where the member runs without raising, running it again raises nothing and changes nothing. -/
+theorem group_member_idem [DecidableEq C] (env : Env C K) (isPos : C → Bool) (d : C)
+    (hpos : ∀ c, isPos c = true → 0 < env.ι c) (htol : 0 ≤ env.tol) (hrel : 0 ≤ env.rel)
+    (groups : List (List (CType × Rel C × Assign C)))
+    (hrec : ∀ g ∈ groups, ∀ t ∈ g, recognise isPos d t.2.1 t.2.2 = true)
+    (hnodup : ∀ g ∈ groups, (g.map (·.2.1.i)).Nodup)
+    (hfree : ∀ g ∈ groups, ∀ t ∈ g, ∀ t' ∈ g, t'.2.1.rhs.mentions t.2.1.i = false)
+    (hB : ∀ g ∈ groups, ∀ t ∈ g, ∀ t' ∈ g, t.2.2.factor.mentions t'.2.1.i = false)
+    (hne : ∀ g ∈ groups, ∀ t ∈ g, t.2.1.cmp = .ne → 0 < env.tol)
+    (hdef : ∀ g ∈ groups, ∀ t ∈ g, ∀ z z' : List K, z.length = z'.length →
+      t.2.2.defined env z = true → t.2.2.defined env z' = true)
+    (i : Nat) : C17.Idem (gmember env (groups.map fun g => g.map fun t => (t.1, t.2.2)) i) := by
+  intro a b hab
+  unfold gmember at hab ⊢
+  rw [List.getElem?_map] at hab ⊢
+  cases hg : groups[i]? with
+  | none => rw [hg] at hab; simp only [Option.map_none] at hab ⊢
+  | some g =>
+    rw [hg] at hab; simp only [Option.map_some] at hab ⊢
+    have hgm : g ∈ groups := List.mem_of_getElem? hg
+    have hb : b = compose env (g.map fun t => (t.1, t.2.2)) a := compose_opt_eq env _ a b hab
+    have hbl : b.length = a.length := by rw [hb]; exact (compose_frame env _ a).1
+    have hlen : ∀ t ∈ g, t.2.1.i < a.length := by
+      intro t ht
+      have := composeOpt_target_lt env _ a b hab (t.1, t.2.2) (List.mem_map.mpr ⟨t, ht, rfl⟩)
+      rw [← recognise_i (hrec g hgm t ht)]; exact this
+    have hdefall : ∀ w ∈ (g.map fun t => (t.1, t.2.2)), ∀ z : List K, z.length = a.length → w.2.defined env z = true := by
+      intro w hw z hz
+      obtain ⟨z0, hz0, hd0⟩ := composeOpt_defined env _ some (fun x y h => by simp at h; rw [h]) a b hab w hw
+      obtain ⟨t, ht, rfl⟩ := List.mem_map.mp hw
+      exact hdef g hgm t ht z0 z (by rw [hz0, hz]) hd0
+    have htot := composeOpt_total env a.length (g.map fun t => (t.1, t.2.2)) some id (fun x hx => ⟨rfl, hx⟩) hdefall b hbl
+    have hidem := compose_idempotent env isPos d hpos htol hrel g a (hrec g hgm) hlen (hnodup g hgm) (hfree g hgm) (hB g hgm)
+      (hne g hgm)
+    unfold compose? 
+    rw [htot]
+    have : (List.foldl (Emitted.step env) id (g.map fun t => (t.1, t.2.2))) b = b := by
+      have h2 := hidem
+      unfold compose at h2
+      rw [hb]; unfold compose; exact h2
+    rw [this]
+
+
+/-- **`join=and_` over groups of independent lines: a success is a solution of the whole text.** Groups may feed ONE ANOTHER
+(that is what `and_` iterates for); inside a group the lines are independent and division-free. -/
+theorem join_groups_and_indep_all_hold [DecidableEq C] (env : Env C K) (isPos : C → Bool) (d : C)
+    (hpos : ∀ c, isPos c = true → 0 < env.ι c) (htol : 0 ≤ env.tol) (hrel : 0 ≤ env.rel)
+    (groups : List (List (CType × Rel C × Assign C))) (x : List K) (draws : List (List K))
+    (hrec : ∀ g ∈ groups, ∀ t ∈ g, recognise isPos d t.2.1 t.2.2 = true)
+    (hnodup : ∀ g ∈ groups, (g.map (·.2.1.i)).Nodup)
+    (hfree : ∀ g ∈ groups, ∀ t ∈ g, ∀ t' ∈ g, t'.2.1.rhs.mentions t.2.1.i = false)
+    (hB : ∀ g ∈ groups, ∀ t ∈ g, ∀ t' ∈ g, t.2.2.factor.mentions t'.2.1.i = false)
+    (hstrict : ∀ g ∈ groups, ∀ t ∈ g, t.2.1.cmp.strict = true → 0 < env.tol)
+    (hdef : ∀ g ∈ groups, ∀ t ∈ g, ∀ z z' : List K, z.length = z'.length →
+      t.2.2.defined env z = true → t.2.2.defined env z' = true)
+    (y : List K) (t links : Nat) (st : Comb.Stats)
+    (hr : joinAndG env (groups.map fun g => g.map fun t => (t.1, t.2.2)) x draws = (.success y t links, st))
+    (hlinks : groups.length ≤ links) :
+    ∀ g ∈ groups, ∀ t ∈ g, t.2.1.holds env y :=
+  join_groups_and_all_hold env isPos d hpos htol hrel groups x draws hrec hnodup hstrict
+    (fun i _ => group_member_idem env isPos d hpos htol hrel groups hrec hnodup hfree hB
+      (fun g hg t ht h => hstrict g hg t ht (by rw [h]; rfl)) hdef i)
+    y t links st hr hlinks
+
+/-- **`and_` over a group whose lines feed one another may report success at a non-solution (closed witness; why
+`join_groups_and_all_hold` asks for idempotent members).** Members: the group `x0 = x1 ; x1 = 5` under `outer` couplers (it
+stores `x0 := x1` first, then `x1 := 5`) and an empty group. At `[0, 0]` the first pass of `constraints.and_` produces
+`[0, 5]` twice, which it takes for convergence (intact window, no random draw) - but `x0 = x1` fails at `[0, 5]`, and
+the group applied once more returns `[5, 5]`. -/
+theorem join_groups_and_feeding_false_success :
+    ∃ (env : Env Nat ℚ) (r0 r1 : Rel Nat) (c0 c1 : Assign Nat),
+      recognise (fun c => decide (0 < c)) 1 r0 c0 = true ∧ recognise (fun c => decide (0 < c)) 1 r1 c1 = true ∧
+      r0.i ≠ r1.i ∧
+      joinAndG env [[(.outer, c0), (.outer, c1)], []] [0, 0] [] = (.success [0, 5] 1 2, { calls := 2, draws := 0 }) ∧
+      ¬ r0.holds env [0, 5] ∧ gmember env [[(.outer, c0), (.outer, c1)], []] 0 [0, 5] = some [5, 5] := by
+  refine ⟨{ ι := fun n => (n : ℚ), tol := 0, rel := 0 }, ⟨0, .eq, .var 1⟩, ⟨1, .eq, .num 5⟩, ⟨0, .var 1⟩, ⟨1, .num 5⟩,
+    by decide, by decide, by decide, by decide, ?_, by decide⟩
+  simp [Rel.holds, Cmp.holds, Expr.eval]
+
 /-! ## non-vacuity: the hypotheses are satisfiable by a concrete, non-trivial instance -/
+
+/-- argument shapes: the solvers of the two texts `x0 > x2` and `x1 != 5` nested as `generate_solvers` returns them, with a
+`ctype` list nested the same way, satisfy the hypotheses of `gc_shape_independent`; a single function and `None` do, too -/
+example :
+    let items : Nest (Rel Nat × Assign Nat) :=
+      .node [.node [.leaf (⟨0, .gt, .var 2⟩, emit ⟨0, .gt, .var 2⟩ [] 11)], .node [.leaf (⟨1, .ne, .num 5⟩, emit ⟨1, .ne, .num 5⟩ [] 11)]]
+    let ct : CArg := .many [.node [.leaf .outer], .node [.leaf .inner]]
+    Nest.flatL items.top = [(⟨0, .gt, .var 2⟩, emit ⟨0, .gt, .var 2⟩ [] 11), (⟨1, .ne, .num 5⟩, emit ⟨1, .ne, .num 5⟩ [] 11)] ∧
+    ct.covers (Nest.flatL items.top).length ∧ CArg.none.covers 7 ∧
+    (gcItems (Nest.map (·.2) items) ct).map (·.1) = [.outer, .inner] ∧
+    (gcItems (Nest.leaf (emit (⟨0, .gt, .var 2⟩ : Rel Nat) [] 11)) .none).length = 1 := by
+  refine ⟨by simp [Nest.top, Nest.flatL, Nest.flat], ?_, trivial, ?_, ?_⟩
+  · simp [CArg.covers, Nest.top, Nest.flatL, Nest.flat]
+  · simp [gcItems, ctypeList, Nest.top, Nest.flatL, Nest.flat, Nest.map, Nest.mapL]
+  · simp [gcItems, ctypeList, Nest.top, Nest.flatL, Nest.flat]
+
+/-- `join=or_` over groups: the members `[x0 = 1 ; x1 = 2]` and `[x2 = 3]` at `[0, 0, 3]`: the first member moves the input,
+the second leaves it unchanged - success at the input, where all relations of the second member hold -/
+example :
+    let env : Env Nat ℚ := { ι := fun n => (n : ℚ), tol := 0, rel := 0 }
+    joinOrG env [[(.inner, ⟨0, .num 1⟩), (.inner, ⟨1, .num 2⟩)], [(.outer, ⟨2, .num 3⟩)]] [0, 0, 3] []
+      = (.success [0, 0, 3] 0 1, { calls := 2, draws := 0 }) := by
+  decide
 
 /-- `x0 <= x1*3` (no `!=` lines), numerals read as rationals, `tol = rel = 1/1000`, at `x = [10, 2]` -/
 example :
